@@ -20,7 +20,7 @@ ASSUMPTIONS = ['operands are kept in core-domain formats (objects with n_word>52
                'steps whose documented result word is < 1 are rejected by the library (ValueError) and are skipped and counted by the generator']
 EXHAUSTIVE = False
 REQUIRED_CLASSES = {'op:arith': 500, 'op:shift': 200, 'op:bitwise': 200, 'op:reduce': 200, 'op:resize': 200, 'op:index': 100, 'op:construct': 300,
-                    'sat:float-huge': 500, 'sat:int-huge': 500, 'sat:container-huge': 300, 'objects-checked': 5000, 'accumulator': 300}
+                    'sat:float-huge': 500, 'sat:int-huge': 500, 'sat:container-huge': 300, 'objects-checked': 5000, 'accumulator': 300, 'wide-result-write': 1000}
 
 
 def check_object(x, where):
@@ -500,6 +500,78 @@ def check_saturate_container(ctx, case, v, exact, sig):
                 return
 
 
+def check_wide_result_write(ctx, case):
+    """An object produced by * or + of two core-domain operands whose optimal word is 54..63 bits, then written with float
+    values at and beyond its limits (which are not exact doubles there): codes stay in range, and under saturate every
+    out-of-range element lands on the bound of its own side."""
+    fx, fy = tuple(case['fx']), tuple(case['fy'])
+    F = C.Fxp()
+    ctx.ev()
+    route, ovf = case['route'], case['overflow']
+    sig = 'wide-result-write/%s/%s/%s' % (case['op'], route, ovf)
+
+    def do():
+        x = F(0, fx[0], fx[1], fx[2], rounding=case['rounding'], overflow=ovf)
+        y = F(0, fy[0], fy[1], fy[2])
+        return x * y if case['op'] == 'mul' else x + y
+    ok, z = ctx.guard(case, do, sig_prefix=sig + '/')
+    if not ok:
+        return
+    s, w, f = C.fmt_of(z)
+    if not 54 <= w <= 63:
+        ctx.cls('wide-result-write:skipped-word')
+        return
+    ctx.cls('wide-result-write')
+    lo, hi = M.rng(s, w)
+    upper, lower = M.value_of(hi, f), M.value_of(lo, f)
+    lsb = M.value_of(1, f)
+    pool = {'upper+lsb': upper + lsb, 'lower-lsb': lower - lsb, 'upper+half': upper + lsb / 2, '2upper': 2 * (upper + lsb), '-2upper': -2 * (upper + lsb),
+            'huge': Fraction(10) ** 300, '-huge': -Fraction(10) ** 300, 'quarter': (upper + lsb) / 4, 'zero': Fraction(0), 'lower': lower,
+            'upper-ulp': Fraction(float(upper + lsb) * (1 - 2.0 ** -53)), 'one-lsb': lsb}
+    exacts = [pool[n] for n in case['vals'] if not (pool[n] < 0 and not s and n in ('lower-lsb',) and False)]
+    exacts = [e for e in exacts if Fraction(float(e)) == e]
+    if not exacts:
+        return
+    vals = [float(e) for e in exacts]
+
+    def write():
+        if route == 'set_val':
+            z.set_val(np.array(vals))
+        elif route == 'call':
+            z(list(vals))
+        elif route == 'scalar':
+            z(vals[-1])
+        else:
+            z.set_val(np.zeros(len(vals)))
+            z[:] = np.array(vals)
+        return z
+    ok, z = ctx.guard(case, write, sig_prefix=sig + '/')
+    if not ok:
+        return
+    try:
+        check_object(z, sig)
+        ks = C.flat(C.codes(z))
+    except Mismatch as m:
+        ctx.fail(m.sig, case, m.detail)
+        return
+    if route == 'scalar':
+        exacts = exacts[-1:]
+    if ovf != 'saturate':
+        return
+    for i, (e, k) in enumerate(zip(exacts, ks)):
+        if e > upper and k != hi:
+            ctx.fail(sig + '/above-upper-not-hi', case, {'index': i, 'code': k, 'hi': hi, 'dtype': z.dtype})
+            return
+        if e < lower and k != lo:
+            ctx.fail(sig + '/below-lower-not-lo', case, {'index': i, 'code': k, 'lo': lo, 'dtype': z.dtype})
+            return
+        if lower <= e <= upper and M.is_double(M.scaled(e, f)) and abs(M.scaled(e, f)) < 2 ** 62:
+            want = M.quant(e, s, w, f, case['rounding'], 'saturate')[0]
+            if k != want:
+                ctx.fail(sig + '/in-range-value', case, {'index': i, 'code': k, 'expected': want})
+                return
+
+
 def check_accumulator(ctx, case):
     """An object that is its own result target (config.op_out / op_out_like = itself) and objects derived from it with
     like= / template= / indexing: every one is well-formed, usable, and refers to ITSELF, not to the object it came from."""
@@ -545,7 +617,7 @@ def check_accumulator(ctx, case):
         ctx.fail(e.sig, case, e.detail)
 
 
-CHECKS = {'program': check_program, 'saturate': check_saturate, 'accumulator': check_accumulator}
+CHECKS = {'program': check_program, 'saturate': check_saturate, 'accumulator': check_accumulator, 'wide-result-write': check_wide_result_write}
 
 
 def replay(ctx, case):
@@ -671,6 +743,36 @@ def task_hyp_accumulator(ctx, n):
     run_given(ctx, st_accumulator(), body_accumulator, n, ctx.task_seed)
 
 
+@st.composite
+def st_wide_result_write(draw):
+    op = draw(st.sampled_from(['mul', 'mul', 'add']))
+    sx, sy = draw(st.booleans()), draw(st.booleans())
+    if op == 'mul':
+        wz = draw(st.integers(54, 63))
+        wx = draw(st.integers(max(2, wz - 52), min(52, wz - 2)))
+        wy = wz - wx
+        fx, fy = draw(st.integers(0, wx)), draw(st.integers(0, wy))
+    else:
+        wx = draw(st.integers(30, 52))
+        fx = draw(st.integers(0, wx))
+        wy = draw(st.integers(2, 52))
+        fy = draw(st.integers(0, min(wy, 62 - (wx - fx))))
+    names = ['upper+lsb', 'lower-lsb', 'upper+half', '2upper', '-2upper', 'huge', '-huge', 'quarter', 'zero', 'lower', 'upper-ulp', 'one-lsb']
+    return {'check': 'wide-result-write', 'op': op, 'fx': [sx, wx, fx], 'fy': [sy, wy, fy], 'rounding': draw(st.sampled_from(M.ROUNDINGS)),
+            'overflow': draw(st.sampled_from(['saturate', 'saturate', 'wrap'])), 'route': draw(st.sampled_from(['set_val', 'call', 'setitem', 'scalar'])),
+            'vals': draw(st.lists(st.sampled_from(names), min_size=1, max_size=4))}
+
+
+def body_wide_result_write(ctx, case):
+    ctx.nontrivial(('wrw', repr(sorted(case.items()))))
+    ctx.sample(case, True)
+    check_wide_result_write(ctx, case)
+
+
+def task_hyp_wide_result_write(ctx, n):
+    run_given(ctx, st_wide_result_write(), body_wide_result_write, n, ctx.task_seed)
+
+
 def task_hyp_saturate(ctx, n):
     run_given(ctx, st_saturate(), body_saturate, n, ctx.task_seed)
 
@@ -682,4 +784,5 @@ def tasks(tier, scale=1.0):
     nh = int((2500 if tier == 'quick' else 40000) * scale)
     out += [('hyp-saturate-%d' % i, 'task_hyp_saturate', {'n': nh}) for i in range(4)]
     out += [('hyp-accumulator-%d' % i, 'task_hyp_accumulator', {'n': nh // 5}) for i in range(2)]
+    out += [('hyp-wide-result-write-%d' % i, 'task_hyp_wide_result_write', {'n': nh // 2}) for i in range(2)]
     return out
